@@ -219,6 +219,33 @@ CHECKS = {
             "the ssafloat suites, outside that domain only the Ok/Err/Panic class is compared; strings.ToLower, regexp and sort.Strings as "
             "stated in notes/C04.md; the document-level reading theorem fixes the order of the three sections (other orders: "
             "correspondence and oracle only); every theorem of Properties/C04.v is closed under the global context."),
+    "C05": (True,
+            "Executable Gallina models of ReadFromSTL and WriteToSTL (Model/Stl.v: block framing, GSI parse/encode, TTI parse/encode, "
+            "timecodes and programme start, the character handler with pending diacritics, open-subtitling and teletext row parsers, "
+            "style codes, justification, vertical position) over tables REGENERATED FROM THE CODE on every run (tools/gentables -> "
+            "Gen/StlTables.v: the Latin code table, stlUnicodeMapping/Diacritic with their inverses, NFC/NFD of the repertoire as the "
+            "vendored x/text computes them, frame-rate/language maps, GSI/TTI field layouts probed from the code). Machine-checked for ALL "
+            "values: decode(encode s) = s for every string over the Latin repertoire (168 spacing characters and 2184 letter x diacritic "
+            "compositions; '$' refuted: C05_chars_dollar_refuted, recorded as a known finding), every h:m:s:f timecode at 25/30 fps read "
+            "to within 1 ns and written back as the same four bytes, programme-start subtraction/addition leaves every timecode unchanged "
+            "(read then write again changes no timecode), the probed field layouts are those of EBU Tech 3264, GSI and TTI block round "
+            "trips, file layout 1024 + 128n, user-data blocks skipped, rows round-trip through the open-subtitling and through the "
+            "teletext row parser (runs, texts, italic/underline/box flags), document-level write->read for every representable document "
+            "under every display standard (times, lines, vertical position, justification, every metadata field), the reader's structure "
+            "on ANY file of a GSI block plus 128-byte blocks (one cue per non-user-data block, in order, timecode minus programme start "
+            "unless ignored), short files are errors, reader and writer never panic. Tie: extracted model vs the implementation on "
+            "generated binaries x the ignore-programme-start option, writer bytes, and field-level suites through hooks (GSI/TTI codecs, "
+            "text codec, row parsers, normalisation); oracles on the implementation: ground-truth files (GSI values, 25/30 fps, display "
+            "standards 0/1/2, programme start, every timecode, the full Latin table incl. all diacritic x letter pairs, style code "
+            "sequences, interleaved user-data blocks) vs the reader, writer output vs an independent GSI/TTI + ISO 6937 decoder and vs "
+            "the reader, second-pass timecode stability, metadata present / absent / inherited from another format.",
+            "Rocq proof over Gallina models of the EBU STL codec with tables regenerated from the code + extracted-model differential correspondence + independent GSI/TTI/ISO 6937 decoder",
+            "known finding (KNOWN-FINDING line, exit 0): WriteToSTL writes '$' as 0x24, which the Latin table and the library's own reader "
+            "define as the currency sign; the byte is pinned by the golden file testdata/example-opn-out.stl, so it cannot be repaired "
+            "with the test suite unedited; matched only when every differing character is '$' read back as the currency sign. "
+            "norm.NFD/NFC on the repertoire = the generated tables (validated by the encode/decode suites); reader fidelity on arbitrary "
+            "renderings of a ground-truth file (style codes in any order, omitted closing codes) is by oracle + correspondence only; "
+            "every theorem of Properties/C05.v is closed under the global context."),
     "C06": (True,
             "Theorems about a Gallina model of the teletext reader from the delivered PES payloads on (page buffer, character decoder, "
             "page and row parsing; Model/Ttx.v, Model/TtxRow.v), with every table regenerated from the code on each run (tools/genttx -> "
